@@ -6,7 +6,11 @@ import (
 	"fmt"
 	"io"
 	"log/slog"
+	"os"
+	"path/filepath"
+	"strconv"
 	"strings"
+	"syscall"
 	"time"
 
 	"github.com/benbjohnson/litestream"
@@ -71,7 +75,7 @@ type RunStats struct {
 
 func isLitestreamOp(k string) bool {
 	switch k {
-	case "sync", "rsync", "lckpt", "syncwait", "syncwaitreq", "snap", "snapfail", "compact", "close", "down", "up", "upsame", "autorecover":
+	case "sync", "rsync", "lckpt", "syncwait", "syncwaitreq", "snap", "snapfail", "lckptwin", "compact", "close", "down", "up", "upsame", "autorecover":
 		return true
 	}
 	return false
@@ -448,6 +452,9 @@ func GenC01(r *hx.Rand, thorough bool) History {
 	if r.Chance(6) {
 		return genRestartIdleSnapshot(r)
 	}
+	if r.Chance(6) {
+		return genCheckpointWindow(r)
+	}
 	h := History{Cfg: GenCfg(r, thorough)}
 	n := 8 + r.Intn(25)
 	reader := false
@@ -701,6 +708,30 @@ func genRestartIdleSnapshot(r *hx.Rand) History {
 	return h
 }
 
+// genCheckpointWindow: a long replicated WAL generation; litestream checkpoints (FULL/RESTART/
+// TRUNCATE) and, inside the window between its PRAGMA and the re-acquisition of its read lock, the
+// application commits a shorter transaction and runs its own complete RESTART checkpoint: a WAL
+// generation litestream never saw is already in the database file when it looks again.
+func genCheckpointWindow(r *hx.Rand) History {
+	ps := []int{1024, 4096, 4096}[r.Intn(3)]
+	h := History{Cfg: Cfg{PageSize: ps, AutoVacuum: "none", MinCheckpointPageN: 100000, TruncatePageN: 500000}}
+	rows := 12 + r.Intn(30)
+	h.Ops = append(h.Ops, Op{K: "ins", A: rows, B: ps - ps/4})
+	if r.Chance(50) {
+		h.Ops = append(h.Ops, Op{K: "sync"}, Op{K: "ins", A: 2 + r.Intn(4), B: ps / 2})
+	}
+	h.Ops = append(h.Ops, Op{K: "syncwait"})
+	h.Ops = append(h.Ops, Op{K: "lckptwin", S: []string{"RESTART", "FULL", "RESTART", "TRUNCATE"}[r.Intn(4)], A: 3 + r.Intn(6), B: ps - ps/4})
+	for i, n := 0, 1+r.Intn(3); i < n; i++ {
+		h.Ops = append(h.Ops, genAppOp(r, ps))
+		if r.Chance(50) {
+			h.Ops = append(h.Ops, Op{K: "sync"})
+		}
+	}
+	h.Ops = append(h.Ops, Op{K: "syncwait"})
+	return h
+}
+
 func GenC02(r *hx.Rand, thorough bool) History {
 	if r.Chance(15) {
 		return genLongWALRace(r)
@@ -826,17 +857,18 @@ func (e *Env) PlanText(n ltx.TXID) string {
 
 // FinalState is what the application can observe of the source at the end of a history.
 type FinalState struct {
-	Digest      string
-	LockRows    int
-	Integrity   string
-	JournalMode string
-	HasSeq      bool
-	HasLock     bool
-	Tables      int
-	FreshDigest string // the same digest read through a connection opened after everything else finished (what any other process sees)
-	FreshErr    string
-	AppBlocked  []string // foreground application statements that failed with SQLITE_BUSY/locked while nothing else was running
-	AppBusy     bool     // an application statement failed with SQLITE_BUSY/locked (it lost a race for a lock): the run is not the same application history as one where it succeeded
+	Digest       string
+	LockRows     int
+	Integrity    string
+	JournalMode  string
+	HasSeq       bool
+	HasLock      bool
+	Tables       int
+	FreshDigest  string // the same digest read through a connection opened after everything else finished (what any other process sees)
+	FreshErr     string
+	AppBlocked   []string // foreground application statements that failed with SQLITE_BUSY/locked while nothing else was running
+	LocksDropped []string // litestream operations after which this process held no POSIX lock on the database file or its -shm any more, although it did before (a descriptor on that file was closed inside the process: every SQLite lock of the process on it is gone, silently)
+	AppBusy      bool     // an application statement failed with SQLITE_BUSY/locked (it lost a race for a lock): the run is not the same application history as one where it succeeded
 }
 
 // RunFinal executes the history (ignoring litestream-only operations when
@@ -857,7 +889,23 @@ func RunFinal(h History) (FinalState, RunStats, error) {
 		if h.Cfg.NoLitestream && isLitestreamOp(op.K) {
 			continue
 		}
+		watch := WatchLocks && !h.Cfg.NoLitestream && isLitestreamOp(op.K) && e.LS != nil && e.App != nil &&
+			op.K != "close" && op.K != "down" && op.K != "crash" && op.K != "up" && op.K != "upsame"
+		var lockedBefore [2]int
+		if watch {
+			lockedBefore = [2]int{PosixLocksOn(e.DBPath), PosixLocksOn(e.DBPath + "-shm")}
+		}
 		out, ack := e.Exec(op)
+		if os.Getenv("VERIF_LOCKDBG") != "" {
+			fmt.Fprintf(os.Stderr, "lockdbg %s -> %s db=%d shm=%d\n", op.String(), trunc(out, 40), PosixLocksOn(e.DBPath), PosixLocksOn(e.DBPath+"-shm"))
+		}
+		if watch && e.LS != nil && e.App != nil {
+			for i, p := range []string{e.DBPath, e.DBPath + "-shm"} {
+				if lockedBefore[i] > 0 && stablyUnlocked(p) {
+					fs.LocksDropped = append(fs.LocksDropped, fmt.Sprintf("%s: %d POSIX lock(s) of this process on %s before, none after", op.String(), lockedBefore[i], filepath.Base(p)))
+				}
+			}
+		}
 		if ack {
 			st.Acks++
 		}
@@ -954,6 +1002,11 @@ func GenC14(r *hx.Rand, thorough bool) History {
 	var ops []Op
 	inBg := false // a background writer is in flight: no foreground application op until cwait (it would race for the write lock differently in the control run)
 	for _, op := range h.Ops {
+		if op.K == "lckptwin" {
+			// the control run skips litestream operations: keep the application's part as its own operations
+			ops = append(ops, Op{K: "lckpt", S: op.S}, Op{K: "upd", A: op.A, B: op.B}, Op{K: "actl", S: "RESTART"})
+			continue
+		}
 		ops = append(ops, op)
 		switch op.K {
 		case "cw", "cwhold":
@@ -1046,3 +1099,44 @@ type VerifyObs struct {
 	Line string
 	Real string
 }
+
+// PosixLocksOn counts the POSIX (fcntl) locks this process holds on the file, from /proc/locks.
+// -1 when the file or /proc/locks cannot be read (nothing is judged then).
+func PosixLocksOn(path string) int {
+	var st syscall.Stat_t
+	if err := syscall.Stat(path, &st); err != nil {
+		return -1
+	}
+	b, err := os.ReadFile("/proc/locks")
+	if err != nil {
+		return -1
+	}
+	pid := strconv.Itoa(os.Getpid())
+	ino := ":" + strconv.FormatUint(st.Ino, 10)
+	n := 0
+	for _, line := range strings.Split(string(b), "\n") {
+		f := strings.Fields(line)
+		// "1: POSIX ADVISORY READ 1234 08:01:5678 0 EOF"
+		if len(f) >= 8 && f[1] == "POSIX" && f[4] == pid && strings.HasSuffix(f[5], ino) {
+			n++
+		}
+	}
+	return n
+}
+
+// stablyUnlocked: /proc/locks is not an atomic snapshot (entries move while other threads of
+// this process lock other files), so a lock counts as gone only if it stays gone.
+func stablyUnlocked(path string) bool {
+	for i := 0; i < 6; i++ {
+		if PosixLocksOn(path) != 0 {
+			return false
+		}
+		time.Sleep(3 * time.Millisecond)
+	}
+	return true
+}
+
+// WatchLocks turns the POSIX-lock observation of RunFinal on. Only meaningful while a single
+// history runs in the process: /proc/locks read while other goroutines lock and unlock other
+// database files is not reliable (entries of this process were seen to vanish for tens of ms).
+var WatchLocks bool
